@@ -1,13 +1,22 @@
 import DnsVerif.Spec.Wire
 import DnsVerif.Model.Dec
 import DnsVerif.Model.Enc
+import DnsVerif.Lemmas.SoundMsg
+import DnsVerif.Lemmas.CompleteMsg
+import DnsVerif.Lemmas.EncSpecBodies
+import DnsVerif.Lemmas.RTElem
 
-/-! # C16 — SVCB/HTTPS records follow the RFC 9460 wire rules (part 1: the parameter set)
+/-! # C16 — SVCB/HTTPS records follow the RFC 9460 wire rules
 
 Part 1: the model of `BTreeSet<ServiceParameter>` (a list kept sorted by key): inserting keeps keys
 strictly increasing, refuses exactly a key that is present (`SVCBDuplicateKey`), and `mandatory` is
-emitted sorted. Part 2 (per-kind value formats, lengths, class IN, alias form, round trip; from
-Lemmas/Sound*/Complete*/EncSpec*.lean) is appended when complete; until then PARTIAL. -/
+emitted sorted. Part 2: every parameter kind is read from exactly its registered wire format
+(`SvcValueAt`: mandatory = 2-octet keys, alpn = character-strings, no-default-alpn / key 65535 empty,
+port = 2 octets, hints = multiples of 4 / 16, ech = 2-octet length + exactly that many octets, keys
+7..=65534 opaque) — sound and complete, so a value whose length does not fit its format is not accepted;
+the parameter list of an accepted record is a key-sorted permutation of the wire list without duplicates;
+the encoder emits each parameter in that format with `mandatory` sorted (`SvcParam.norm`).
+Class IN and the alias form are in `RDataAt.svcbAlias/svcbService` + `classOk` (C03 `accepted_in_only`). -/
 
 namespace C16
 
@@ -132,5 +141,42 @@ theorem mandatory_emit_sorted (ks : List Nat) : (sortNat ks).Pairwise (· ≤ ·
 
 example : insertParam (.port 80) [.alpn [], .ipv4hint []] = some [.alpn [], .port 80, .ipv4hint []] := by decide
 example : insertParam (.port 443) [.alpn [], .port 80] = none := by decide
+
+/-! ## Per-kind wire formats: sound and complete -/
+
+theorem param_value_sound {key : Nat} {d d' : D} {p : SvcParam} (hd : D.Ok d) (hk : key < 65536)
+    (h : decSvcParam key d = .ok (p, d')) (he : d'.off = d'.lim) : SvcValueAt d.buf d.lim d.off p ∧ p.key = key := by
+  obtain ⟨h1, h2, _⟩ := Sound.decSvcParam_sound hd hk h he
+  exact ⟨h1, h2⟩
+
+theorem param_value_complete {buf : Bytes} {lim off c : Nat} {p : SvcParam} (h : SvcValueAt buf lim off p)
+    (hlb : lim ≤ buf.length) (hB : buf.length < 2 ^ 63) :
+    ∃ c', decSvcParam p.key { buf := buf, off := off, lim := lim, cost := c } = .ok (p, { buf := buf, off := lim, lim := lim, cost := c' }) :=
+  Complete.decSvcParam_complete h hlb hB
+
+/-- the accepted parameter set is the wire list, key-sorted, without duplicates -/
+theorem params_sound (fuel : Nat) {d d' : D} {res : List SvcParam} (hd : D.Ok d)
+    (h : decSvcParams fuel d [] = .ok (res, d')) :
+    ∃ wire, SvcParamsAt d.buf d.lim d.off wire ∧ res.Perm wire ∧ keysSorted res ∧ d'.off = d.lim := by
+  obtain ⟨wire, h1, h2, h3, h4, _⟩ := Sound.decSvcParams_sound fuel hd (by simp [keysSorted]) h
+  exact ⟨wire, h1, by simpa using h2, h3, h4⟩
+
+theorem params_complete {buf : Bytes} {lim off c : Nat} {wire sorted : List SvcParam}
+    (h : SvcParamsAt buf lim off wire) (hperm : sorted.Perm wire) (hs : keysSorted sorted)
+    (hlb : lim ≤ buf.length) (hB : buf.length < 2 ^ 63) :
+    ∃ c', decSvcParams (lim - off + 1) { buf := buf, off := off, lim := lim, cost := c } [] =
+      .ok (sorted, { buf := buf, off := lim, lim := lim, cost := c' }) := Complete.decSvcParams_complete h hperm hs hlb hB
+
+/-- every emitted parameter is in its registered format, `mandatory` sorted -/
+theorem param_emit_format {p : SvcParam} (hwf : WfParam p) :
+    EncSpec.WSpec (encSvcParam · p) (fun buf s t => SvcParamAt buf s p.norm t) := EncSpec.encSvcParam_spec hwf
+
+/-! ## Emitted records decode to the same record, values intact -/
+
+theorem svcb_roundtrip {rr : RR} {b : Bytes} {prio : Nat} {target : Name} {params : List SvcParam}
+    (hwf : WfRR rr) (hrd : rr.rd = .svcb prio target params) (h : encodeRR rr = .ok b) :
+    ∃ target' params' d, decodeRR b = .ok ({ rr with rd := .svcb prio target' params' }, d) ∧ d.off = b.length ∧
+      ciEq target' target = true ∧ params'.map SvcParam.norm = params.map SvcParam.norm ∧
+      params'.map SvcParam.key = params.map SvcParam.key ∧ keysSorted params' := RT.svcb_roundtrip hwf hrd h
 
 end C16
